@@ -39,7 +39,7 @@ type c27Sub struct {
 }
 
 type c27Step struct {
-	Kind  string `json:"kind"` // register | deregister | subscribe-fast | subscribe-slow | unsubscribe
+	Kind  string `json:"kind"` // register | deregister | toggle | subscribe-fast | subscribe-slow | unsubscribe
 	Addr  string `json:"addr,omitempty"`
 	Style string `json:"style,omitempty"` // reading-direct | stopped-cancel-then-unsubscribe | stopped-live-context
 }
@@ -201,6 +201,12 @@ func TestC27(t *testing.T) {
 			var tc time.Time
 			for _, st := range ph.Steps {
 				time.Sleep(time.Duration(r.Intn(400)) * time.Millisecond)
+				if st.Kind == "toggle" { // always an effective change
+					st.Kind = "register"
+					if _, ok := registered[st.Addr]; ok {
+						st.Kind = "deregister"
+					}
+				}
 				switch st.Kind {
 				case "register":
 					if _, ok := registered[st.Addr]; ok {
@@ -283,6 +289,14 @@ func TestC27(t *testing.T) {
 					if sb.slow {
 						kind = "slow"
 					}
+					all := []string{}
+					for _, x := range subs {
+						x.mu.Lock()
+						all = append(all, fmt.Sprintf("%s slow=%v msgs=%d last={%s} %v after the change", x.name, x.slow, x.n, x.last, x.lastAt.Sub(tc).Round(time.Millisecond)))
+						x.mu.Unlock()
+					}
+					sort.Strings(all)
+					logf("subscribers at the violation: %v", all)
 					viol("subscriber-does-not-converge/"+kind+"-reader", fmt.Sprintf("phase %d: %v after the last registration change subscriber %s (%s reader) holds {%s} (received %v after the change), registered is {%s}", pi, time.Since(tc).Round(time.Millisecond), sb.name, kind, last, at.Sub(tc).Round(time.Millisecond), want))
 					break
 				}
@@ -336,7 +350,7 @@ func TestC27(t *testing.T) {
 			}
 		}
 		// every phase changes something
-		ph.Steps = append(ph.Steps, c27Step{Kind: []string{"register", "deregister"}[r.Intn(2)], Addr: addrs[r.Intn(len(addrs))]})
+		ph.Steps = append(ph.Steps, c27Step{Kind: "toggle", Addr: addrs[r.Intn(len(addrs))]})
 		cs.Phases = append(cs.Phases, ph)
 	}
 	// make sure every unsubscribe style occurs in every scenario
